@@ -39,8 +39,8 @@ ASSUMPTIONS = [
     "systems: Chiral (3D, spin), Haldane (2D), zoo System_R with external terms (triclinic, 3 bands), thorough: "
     "KaneMele (2D, spinful, Kramers-degenerate at TRIMs); point groups C3z / C3z+TimeReversal only",
     "grid sizes from a fixed alphabet (<= 6 points per direction, <= 36 k-points)",
-    "tabulators Energy, Velocity, BerryCurvature, InvMass, Der3E, Spin (+ DerBerryCurvature, OrbitalMoment in "
-    "thorough); degen_thresh default",
+    "tabulators Energy, Velocity, BerryCurvature, InvMass, DerBerryCurvature (non-symmetric rank 2), Der3E (rank 3), "
+    "Spin (+ OrbitalMoment, DerSpin in thorough); degen_thresh default",
     "a *partial* component string on a higher-rank tensor ('x' on a rank-2 tensor) is neither required to raise "
     "nor to return anything specific (the statement lists full components only); 'trace' of a rank-3 tensor is "
     "taken as sum_i T_iii (the code's documented meaning)",
@@ -59,11 +59,13 @@ SYMMETRIC = ("chiral", "haldane", "kanemele")
 
 
 def _tab_names(sysname, tier):
-    names = ["Energy", "Velocity", "BerryCurvature", "InvMass", "Der3E"]
+    # DerBerryCurvature: the rank-2 tensor that is *not* symmetric (InvMass and Der3E are), so that a transposed
+    # index order is visible
+    names = ["Energy", "Velocity", "BerryCurvature", "InvMass", "DerBerryCurvature", "Der3E"]
     if HAS_SS[sysname]:
         names.append("Spin")
     if tier == "thorough":
-        names += ["DerBerryCurvature", "OrbitalMoment"]
+        names += ["OrbitalMoment", "DerSpin"] if HAS_SS[sysname] else ["OrbitalMoment"]
     return names
 
 
@@ -316,6 +318,15 @@ def run_case(case, seed):
                                     return _fail(f"component:rank{r}:{cls}",
                                                  f"{what}: {q} component={spec!r} via {via}: differs from the numpy "
                                                  f"operation by {np.abs(Y - exp).max() if Y.shape == exp.shape else Y.shape}", keys)
+                            # component and band selection together
+                            for sel in (nsel - 1, list(range(nsel))[::-1]):
+                                Yb = np.array(tab.get_data(q, iband=sel, component=spec))
+                                eb = exp[:, :, :, sel]
+                                if Yb.shape != eb.shape or not np.all(np.abs(Yb - eb) <= tol):
+                                    return _fail("get_data:iband_with_component",
+                                                 f"{what}: {q} component={spec!r} iband={sel}: shape {Yb.shape} vs "
+                                                 f"{eb.shape}, max diff "
+                                                 f"{np.abs(Yb - eb).max() if Yb.shape == eb.shape else 'n/a'}", keys)
                             nchecks += 1
                         for kind, spec in invalid:
                             for via, call in (("TABresult.get_data", lambda: tab.get_data(q, component=spec)),
